@@ -96,28 +96,6 @@ Proof.
   unfold subset_b. rewrite forallb_forall. split; intros H x Hx; [apply str_in_iff|apply str_in_iff]; auto.
 Qed.
 
-(* what an accepted observation means: the final listing has exactly the initial entries, and every
-   snapshot taken in between contains all initial entries plus at most ONE new entry, which is a direct
-   child of the configured directory (nothing visible inside the sorter's directory, nothing elsewhere) *)
-Theorem tmp_ok_spec : forall cfg before during after, tmp_ok cfg before during after = true ->
-  (incl before after /\ incl after before) /\
-  forall l, In l during -> incl before l /\
-    exists extra, (extra = [] \/ exists d, extra = [d] /\ direct_child cfg d = true) /\
-                  forall x, In x l -> In x before \/ In x extra.
-Proof.
-  intros cfg before during after H. unfold tmp_ok in H. apply andb_true_iff in H. destruct H as (Hd & Hs).
-  split.
-  - unfold same_set in Hs. apply andb_true_iff in Hs. destruct Hs as (H1 & H2).
-    split; apply subset_b_iff; assumption.
-  - intros l Hl. rewrite forallb_forall in Hd. specialize (Hd l Hl). unfold during_ok' in Hd.
-    apply andb_true_iff in Hd. destruct Hd as (Hsub & Hnew). split; [apply subset_b_iff; exact Hsub|].
-    exists (new_entries before l). split.
-    + destruct (new_entries before l) as [|d [|d2 t]]; [left; reflexivity| |discriminate].
-      right. exists d. split; [reflexivity|exact Hnew].
-    + intros x Hx. destruct (str_in x before) eqn:E; [left; apply str_in_iff; exact E|right].
-      unfold new_entries. apply filter_In. split; [exact Hx|]. rewrite E. reflexivity.
-Qed.
-
 Lemma strip_prefix_app p s t : strip_prefix p s = Some t -> s = p ++ t.
 Proof.
   revert s. induction p as [|a p IH]; intros s H; cbn [strip_prefix] in H.
@@ -125,6 +103,28 @@ Proof.
   - destruct s as [|b s']; [discriminate|]. destruct (N.eqb_spec a b) as [->|]; [|discriminate].
     cbn [app]. f_equal. apply IH. exact H.
 Qed.
+(* what an accepted observation means: the final listing has exactly the initial entries, and every snapshot taken in
+   between contains all initial entries, and whatever else it contains lives under the configured directory *)
+Theorem tmp_ok_spec : forall cfg before during after, tmp_ok cfg before during after = true ->
+  (incl before after /\ incl after before) /\
+  forall l, In l during -> incl before l /\
+    forall x, In x l -> In x before \/ exists rest, x = cfg ++ [47] ++ rest.
+Proof.
+  intros cfg before during after H. unfold tmp_ok in H. apply andb_true_iff in H. destruct H as (Hd & Hs).
+  split.
+  - unfold same_set in Hs. apply andb_true_iff in Hs. destruct Hs as (H1 & H2).
+    split; apply subset_b_iff; assumption.
+  - intros l Hl. rewrite forallb_forall in Hd. specialize (Hd l Hl). unfold during_ok' in Hd.
+    apply andb_true_iff in Hd. destruct Hd as (Hsub & Hnew). split; [apply subset_b_iff; exact Hsub|].
+    intros x Hx. destruct (str_in x before) eqn:E; [left; apply str_in_iff; exact E|right].
+    rewrite forallb_forall in Hnew.
+    assert (Hin : In x (new_entries before l)).
+    { unfold new_entries. apply filter_In. split; [exact Hx|]. rewrite E. reflexivity. }
+    specialize (Hnew x Hin). unfold under_cfg in Hnew.
+    destruct (strip_prefix (cfg ++ [47]) x) as [rest|] eqn:E2; [|discriminate].
+    exists rest. apply strip_prefix_app in E2. rewrite E2, <- app_assoc. reflexivity.
+Qed.
+
 (* a direct child really is cfg/name with a non-empty name free of separators *)
 Theorem direct_child_spec : forall cfg d, direct_child cfg d = true ->
   exists name, d = cfg ++ [47] ++ name /\ name <> [] /\ has_sep name = false.
